@@ -291,3 +291,97 @@ Theorem C02_install_step : forall d acked deleted added pointers seq d' ops,
 Proof. exact install_step. Qed.
 Print Assumptions C02_install_step.
 
+
+
+From RainVerif.proofs Require Import ProtoCrash ProtoHistory.
+(** * M7 (C02 + C16 in full): recovery from a crash image re-establishes the invariant.
+    [Crashed img bs] ([proofs/ProtoCrash.v]): a directory as a clean shutdown or a crash leaves it (orphan
+    tables / logs / temporary files / newer manifests, a torn tail of the last manifest or log record),
+    from which [bs] must be recovered. Every crash image of every step is [Crashed]; [p_open] is correct
+    on every [Crashed] image, and the images of a crash during that recovery are [Crashed] again. *)
+
+Theorem C02_crashed_recovers : forall img bs, Crashed img bs -> crash_ok img bs.
+Proof. exact Crashed_crash_ok. Qed.
+Print Assumptions C02_crashed_recovers.
+
+Theorem C02_open_step_crashed : forall o img bs d' ops,
+  Crashed img bs -> open_okb o img = true ->
+  p_open o img = Some (d', ops) ->
+  pd_img d' = apply_fsops img ops /\
+  InvE d' bs /\
+  all_crash (fun i => Crashed i bs) img ops.
+Proof. exact open_step_c. Qed.
+Print Assumptions C02_open_step_crashed.
+
+Theorem C02_write_step_crashed : forall d acked b,
+  InvE d acked -> write_okb d b = true ->
+  let batch := (pd_seq d + 1, b) in
+  Crashed (pd_img d) acked /\
+  forall t, Crashed (apply_fsop (pd_img d) (FsAppend (FWal (pd_wal d)) (firstn t (fst (log_append (pd_wal_boff d) (batch_bytes batch))))))
+                    (if (length (fst (log_append (pd_wal_boff d) (batch_bytes batch))) <=? t)%nat then acked ++ [batch] else acked).
+Proof. exact write_step_crashed. Qed.
+Print Assumptions C02_write_step_crashed.
+
+Theorem C02_rotate_step_crashed : forall d acked,
+  InvE d acked -> (pd_imm d <> None \/ rotate_okb d = true) ->
+  all_crash (fun i => Crashed i acked) (pd_img d) (snd (p_rotate d)).
+Proof. exact rotate_step_crashed. Qed.
+Print Assumptions C02_rotate_step_crashed.
+
+Theorem C02_flush_step_crashed : forall d acked level size seq d' ops,
+  InvE d acked -> (pd_imm d = None \/ flush_okb d level size seq = true) ->
+  p_flush d level size seq = Some (d', ops) ->
+  all_crash (fun i => Crashed i acked) (pd_img d) ops.
+Proof. exact flush_step_crashed. Qed.
+Print Assumptions C02_flush_step_crashed.
+
+Theorem C02_install_step_crashed : forall d acked deleted added pointers seq d' ops,
+  InvE d acked ->
+  install_okb d deleted added pointers seq = true ->
+  install_preserves d deleted added pointers seq ->
+  p_install d deleted added pointers seq = Some (d', ops) ->
+  all_crash (fun i => Crashed i acked) (pd_img d) ops.
+Proof. exact install_step_crashed. Qed.
+Print Assumptions C02_install_step_crashed.
+
+(** every crash image of every run from a [Crashed] directory (or from an open database) is [Crashed] *)
+Theorem C02_run_crash_safe_crashed : forall ops s acked,
+  RInvC s acked -> run_okP s ops -> pr_failed (fst (p_run s ops)) = false ->
+  pr_img (fst (p_run s ops)) = apply_fsops (pr_img s) (snd (p_run s ops)) /\
+  RInvC (fst (p_run s ops)) (acked ++ acked_batches (nops acked) ops) /\
+  forall n torn, (n <= length (snd (p_run s ops)))%nat ->
+    Crashed (crash_image (pr_img s) (snd (p_run s ops)) n torn)
+            (acked ++ firstn (crash_k s ops n torn) (acked_batches (nops acked) ops)).
+Proof. exact run_crash_safe_c. Qed.
+Print Assumptions C02_run_crash_safe_crashed.
+
+(** one session (open ... then a crash anywhere or a clean end) from a [Crashed] directory *)
+Theorem C02_session_safe : forall img bs s,
+  Crashed img bs -> session_okP img s ->
+  Crashed (session_end img s) (bs ++ session_keeps img (nops bs) s).
+Proof. exact session_safe. Qed.
+Print Assumptions C02_session_safe.
+
+(** histories with crashes in the middle: every session opens what the previous one left *)
+Theorem C02_history_safe : forall h img bs,
+  Crashed img bs -> hist_okP img h ->
+  Crashed (fst (hist_end img bs h)) (snd (hist_end img bs h)).
+Proof. exact history_safe. Qed.
+Print Assumptions C02_history_safe.
+
+Theorem C02_history_safe_from_empty : forall h,
+  hist_ok empty_image h = true ->
+  crash_ok (fst (hist_end empty_image [] h)) (snd (hist_end empty_image [] h)).
+Proof. exact history_safe_b. Qed.
+Print Assumptions C02_history_safe_from_empty.
+
+(** C16: after a crash (e.g. a torn log tail), a session that reopens (any oracle, either reuse setting), writes,
+    and ends cleanly or in a later crash keeps what the crash preserved and its own acknowledged prefix *)
+Theorem C02_writes_after_recovery_survive : forall img bs s,
+  Crashed img bs -> session_okP img s ->
+  (i_current (session_end img s) = None /\ bs ++ session_keeps img (nops bs) s = []) \/
+  exists rc, recover_image (session_end img s) = inl rc /\
+     rec_contents (session_end img s) rc = replay [] (bs ++ session_keeps img (nops bs) s) /\
+     rc_seq rc = nops (bs ++ session_keeps img (nops bs) s).
+Proof. exact writes_after_recovery_survive. Qed.
+Print Assumptions C02_writes_after_recovery_survive.
